@@ -12,6 +12,7 @@ CLAIMS = {
  "C02": ("MC_Reg: ownership invariant and 'acts only as itself' step property over all orders of registration steps, refusals and closes of contending connections; replay + random histories; concurrent claim rounds (see C18)", "7/C02"),
  "C03": ("MC_Gate: the registration gate (451 for every gated verb, password/mask/CAP conditions, 464 closes) under server password and configured users; replay of the whole graph", "7/C03"),
  "C04": ("MC_Chan/MC_Join: membership symmetry invariant, the NAMES/WHO/WHOIS views equal the member set in every state, every change announced; replay + random histories", "7/C04"),
+ "C05": ("Shapes.tla: verb x arity x parameter-shape product enumerated by TLC; every line sent in each session-state class (unregistered, half-registered, alone, member, founder, operator, last member) with an effect-based oracle (sender stays connected and registered, nobody else closed, invariants hold, bystander probes validated by the specification); random histories validated step by step", "7/C05"),
  "C06": ("MC_End: teardown = Erase with the frame condition written out, for QUIT/close/reset/half line/KILL at every reachable state; replay + random histories", "7/C06"),
  "C07": ("MC_Join: handler admits iff the declarative Admissible, refusal changes nothing and yields only matching numerics; full product of key/ban/exception/invite/limit/quota; replay", "7/C07"),
  "C08": ("MC_Mode: per-letter privilege table against the handler for every letter, sign, actor and target rank incl. composite strings; enforcement probes; replay", "7/C08"),
@@ -22,7 +23,10 @@ CLAIMS = {
  "C13": ("Parser.tla: reference tokeniser, serialiser round trip, verb/arity table; every line up to the length bound as a vector for the real tokeniser/classifier; Framer.tla chunking invariance + framing runs on the wire", "7/C13"),
  "C14": ("GlobVec.tla: reference Glob/Normalize with algebraic laws; every mask x text up to the bound as vectors for match_wildcard/normalize_sourcemask in a child process (panic, hang, wrong answer); MC_Mask: corner-case masks through +b/+e/+I, JOIN, PRIVMSG, OPER, user mask, WHO, WHOIS on the wire", "7/C14"),
  "C15": ("MC_Nick: handler = substitution of the nickname in every nick-keyed container, refusals change nothing; probes under the new name; replay", "7/C15"),
+ "C20": ("ConfigValid.tla: product of configuration-field variants with the expected start-up verdict and effective settings; the real binary started on every single-field deviation plus a seeded sample; -g hashes accept exactly their password; config-example.toml loads; the same behaviours over TLS and in clear are judged alike", "7/C20"),
  "C16": ("MC_Life: Fresh channel on creation, removal with the last member by every exit, preconfigured channel persistence and configured ranks; replay", "7/C16"),
+ "C17": ("Keepalive.tla: discrete-time model of waker, pong timeouts and notifier, all (ping,pong) in 1..4 x 1..5 and six client patterns checked exhaustively (live kept, dead dropped on time); real-time runs of the grid validated by TraceTimers.tla; PING/PONG token echo in every random history", "7/C17"),
+ "C18": ("TraceLin.tla: concurrent rounds (2/4/16 worker threads, seeded race points at the lock-release windows) accepted only if TLC finds a serial order of all commands that explains every socket's reply order, per-pair relay order and the final state; MC_Reg explores all orders of registration steps at design level", "6"),
  "C19": ("MC_Oper/MC_Slots: incrementally kept counters equal derived truth on every state, LUSERS/ISON replies true, connection slots freed by every ending; replay + random histories", "7/C19"),
 }
 BUILT = sorted(CLAIMS)
